@@ -381,6 +381,71 @@ def rule_secant(F, R):
                 "update receives dx = x_new - x_old and dg = g_new - g_old", "update receives %s" % a)
 
 
+def _top_targs(t):
+    """(template name, [top-level template arguments]) of a type string"""
+    t = (t or "").replace("const ", "", 1).strip() if (t or "").startswith("const ") else (t or "").strip()
+    i = t.find("<")
+    if i < 0:
+        return t, []
+    name, depth, cur, out = t[:i], 0, "", []
+    for ch in t[i + 1:]:
+        if ch == "<":
+            depth += 1
+        elif ch == ">":
+            if depth == 0:
+                out.append(cur.strip())
+                break
+            depth -= 1
+        if ch == "," and depth == 0:
+            out.append(cur.strip())
+            cur = ""
+        else:
+            cur += ch
+    return name, out
+
+
+def rule_noalias(F, R, rule="R-C01-8", files=("src/solver/",)):
+    """`dst.noalias() = A * B` lets Eigen write the product straight into dst: if dst is one of the factors the result is garbage once the
+    matrices are large enough for the GEMM path (dst is zeroed first) - small instances still come out right, which is what the tests see. The
+    same holds for `dst.noalias() = X +- A * B` (evaluated as dst = X; dst +-= A * B). Decided on the C++ types clang computed: the right-hand
+    side is an Eigen::Product, or a sum / difference with an Eigen::Product as a direct operand, and the destination object occurs among the
+    product's factors. Products nested deeper in coefficient-wise expressions are evaluated into temporaries and are fine."""
+    n = 0
+    for f in F.functions.values():
+        if f.body is None or not f.relfile.startswith(tuple(files)):
+            continue
+        for c in f.calls(lambda c: callee(c).split("::")[-1] == "noalias"):
+            par = f.parent_of(c)
+            if par is None or par["k"] != "call" or par.get("op") not in ("=", "+=", "-=") or not any(z is c for z in walk(par["c"][0])):
+                continue
+            n += 1
+            dst = skip(obj(c))
+            while dst["k"] == "call" and dst.get("ck") == "mem" and not args(dst):
+                dst = skip(obj(dst))        # H.matrix().noalias() -> H
+            dkey = ("ref", dst.get("d")) if dst["k"] == "ref" else ("mem", dst.get("n")) if dst["k"] == "mem" else None
+            rhs = skip(par["c"][1])
+            prods = []
+            name, targs = _top_targs(rhs.get("t"))
+            if name.endswith("Eigen::Product"):
+                prods.append(rhs)
+            elif name.endswith("Eigen::CwiseBinaryOp") and targs and re.search(r"scalar_(sum|difference)_op", targs[0]) and rhs.get("c"):
+                for ch in rhs["c"][-2:]:
+                    ch = skip(ch)
+                    if _top_targs(ch.get("t"))[0].endswith("Eigen::Product"):
+                        prods.append(ch)
+            bad = None
+            for p_ in prods:
+                for y in walk(p_):
+                    if dkey and ((dkey[0] == "ref" and y["k"] == "ref" and y.get("d") == dkey[1]) or (dkey[0] == "mem" and y["k"] == "mem" and y.get("n") == dkey[1])):
+                        bad = p_
+                        break
+            R.check(bad is None, rule, "%s noalias@%d" % (f.name, c["l"]), f.loc(c), "the destination is not a factor of a product written in place",
+                    "`%s` writes the product `%s` straight into `%s`, which is one of its factors: for matrices beyond Eigen's small-product threshold the destination is "
+                    "zeroed before the product is formed - the update degenerates (for the BFGS matrix: to the rank-one term), although small instances still come out right" % (
+                        pp(par)[:70], pp(bad)[:50] if bad else "", pp(dst)[:20]))
+    return n
+
+
 def run(ctx):
     R = ctx.report
     tus = ctx.all_tus() if ctx.thorough else sorted(set(TUS) | set(c02.SOLVER_TUS))
@@ -394,3 +459,5 @@ def run(ctx):
     rule_descent(F, R)
     rule_lbfgs(F, R)
     rule_secant(F, R)
+    nn = rule_noalias(F, R)
+    R.ok("R-C01-8", "noalias sites", "src/solver:1", "%d in-place product assignments inspected in the solvers" % nn)
